@@ -196,6 +196,48 @@ def run(tier, seed, replay=None):
             else:
                 o = "OD %s %s" % (coqrun.nlist(list(vi.shape)), data)
             mcases.append((etxt, o)); metas.append(desc)
+    # ---- tracked operands that come from the factories (the documented starting point: x = torchtt.ones(N); watch(x)), modes of equal size included:
+    # every core is its own leaf, the gradient w.r.t. each equals the dense derivative w.r.t. that core alone
+    def dense_of(cs, ttm_):
+        acc = cs[0]
+        for c in cs[1:]: acc = torch.tensordot(acc, c, dims=([acc.dim() - 1], [0]))
+        acc = acc.reshape(acc.shape[1:-1])
+        if ttm_:
+            d_ = len(cs); acc = acc.permute([2 * k_ for k_ in range(d_)] + [2 * k_ + 1 for k_ in range(d_)])
+        return acc
+    nfac = 12 if tier == "quick" else 120
+    for j in range(nfac):
+        fac = ["ones", "ones", "zeros", "ones-ttm", "eye", "random", "randn", "ones"][j % 8]
+        d = rng.choice([2, 3, 4]); base = rng.choice([2, 3, 4]); N = [base if rng.random() < 0.7 else rng.choice([2, 3]) for _ in range(d)]
+        if j < 8: N[0] = N[-1] = base                         # at least two modes of equal size
+        ttm_ = fac in ("ones-ttm", "eye")
+        shape = [(n_, n_) for n_ in N] if ttm_ else N
+        desc = {"factory": fac, "shape": [list(s_) if isinstance(s_, tuple) else s_ for s_ in shape]}
+        try:
+            if fac in ("ones", "ones-ttm"): x = torchtt.ones(shape)
+            elif fac == "zeros": x = torchtt.zeros(shape)
+            elif fac == "eye": x = torchtt.eye(N)
+            elif fac == "random": x = torchtt.random(shape, [1] + [2] * (d - 1) + [1])
+            else: x = torchtt.randn(shape, [1] + [2] * (d - 1) + [1])
+            cores0 = [c.detach().clone() for c in x.cores]
+            ptrs = [c.untyped_storage().data_ptr() for c in x.cores]
+            if len(set(ptrs)) != len(ptrs): V.fail("factory %s: two cores of the new tensor share their storage" % fac, desc)
+            av = (ttm(rng, N, N) if ttm_ else tt(rng, N)); a_t = av.impl([], torch.float64); a_d = av.dense([], torch.float64)
+            torchtt.grad.watch(x)
+            r = x * a_t + x * x
+            w = torch.tensor(np.array([rng.randint(-2, 2) for _ in range(int(np.prod(r.full().shape)))]).reshape(r.full().shape), dtype=torch.float64)
+            g = torchtt.grad.grad((r.full() * w).sum(), x)
+            leaves = [c.clone().requires_grad_(True) for c in cores0]
+            xd = dense_of(leaves, ttm_)
+            gd = torch.autograd.grad(((xd * a_d + xd * xd) * w).sum(), leaves, allow_unused=True)
+            for k_, (gg, gr) in enumerate(zip(g, gd)):
+                want = gr if gr is not None else torch.zeros_like(cores0[k_])
+                if gg is None: gg = torch.zeros_like(want)
+                if list(gg.shape) != list(want.shape) or float((gg - want).abs().max()) > 1e-9 * (1.0 + float(want.abs().max())):
+                    V.fail("factory %s: grad.grad w.r.t. a core differs from the dense derivative w.r.t. that core" % fac, dict(desc, core=k_)); break
+            dist["factory leaf:" + fac] = dist.get("factory leaf:" + fac, 0) + 1
+        except Exception as ex:
+            V.fail("factory leaf %s raises %s" % (fac, type(ex).__name__), dict(desc, exc=str(ex)[:200]))
     n_model = 0
     if ok_make and mcases:
         codes = coqrun.eval_codes("C15_DZ", "DZ", mcases, fn="check_model")
@@ -208,7 +250,7 @@ def run(tier, seed, replay=None):
               "squared norm, on operands of order 1..4 with small-integer cores; a random subset of the cores of all operands is tracked and given a random integer direction; the "
               "implementation's value and directional derivative (torch.autograd.functional.jvp through the torchtt code) must equal, exactly, those of the same expression on dense "
               "arrays rebuilt differentiably from the same cores, and those of the Coq model evaluated over dual integers; torchtt.grad.watch/grad results are compared (shape and "
-              "value) with torch.autograd.grad of the dense expression; non-trivial/distinct = distinct expression structures"),
+              "value) with torch.autograd.grad of the dense expression; operands made by the factories (ones / zeros / eye / random / randn, modes of equal size) are watched and their per-core gradients compared with the dense per-core derivatives (every core its own storage); non-trivial/distinct = distinct expression structures"),
         samples=samples, distribution=dist, exact_agreements_with_dense=n_exact, model_dual_agreements=n_model, known_findings_reproduced=V.known_hit,
         partial=["norm() (square root) and the TT layer are outside the polynomial model: norm is differentiated through norm^2 here, the layer's gradients are checked by C20"])
     common.write_evidence(PID, tier, seed, cov, time.time() - t0, nviol, common.TRUSTED_BASE + ["torch autograd (the tape): observed through jvp/grad, not modelled"])
